@@ -303,5 +303,119 @@ func genWakeSets(out string) error {
 		sb.WriteString("\n")
 	}
 	sb.WriteString("].\n")
+	shapes, err := c09Shapes(root, fset)
+	if err != nil {
+		return err
+	}
+	sb.WriteString(shapes)
 	return writeIfChanged(filepath.Join(out, "WakeSets.v"), sb.String())
+}
+
+// c09FindMethod parses file (relative to root) and returns the method recv.fn.
+func c09FindMethod(root string, fset *token.FileSet, file, recv, fn string) (*ast.FuncDecl, error) {
+	f, err := parser.ParseFile(fset, filepath.Join(root, filepath.FromSlash(file)), nil, 0)
+	if err != nil {
+		return nil, fmt.Errorf("wake sets: %w", err)
+	}
+	for _, d := range f.Decls {
+		if x, ok := d.(*ast.FuncDecl); ok && x.Name.Name == fn && c09RecvName(x) == recv && x.Body != nil {
+			return x, nil
+		}
+	}
+	return nil, fmt.Errorf("wake sets: %s: func (%s) %s not found (renamed or removed: the tie to the source is broken)", file, recv, fn)
+}
+
+// c09Shapes emits two facts about the shape of code that the models Liveness/Table.v and Liveness/Stop.v
+// transcribe by hand:
+//
+//	mid_walk_method / mid_walk_unlocks: the method of pkg/sync.Map with which udp/client.Conn.CheckExpirations
+//	walks the table of pending message IDs, and whether the range loop of that method releases the read lock
+//	around the callback (`RUnlock()` before the call of the callback, `RLock()` after it);
+//	udp_shutdown_plain: udp/server.Session.shutdown consists of exactly `defer s.doneCancel()` and
+//	`for _, f := range s.popOnClose() { f() }`.
+func c09Shapes(root string, fset *token.FileSet) (string, error) {
+	var sb strings.Builder
+	ce, err := c09FindMethod(root, fset, "udp/client/conn.go", "Conn", "CheckExpirations")
+	if err != nil {
+		return "", err
+	}
+	method := ""
+	ast.Inspect(ce.Body, func(n ast.Node) bool {
+		if c, ok := n.(*ast.CallExpr); ok {
+			if sel, ok := c.Fun.(*ast.SelectorExpr); ok && strings.HasSuffix(c09Expr(sel.X), ".midHandlerContainer") && len(c.Args) == 1 {
+				if _, isLit := c.Args[0].(*ast.FuncLit); isLit && method == "" {
+					method = sel.Sel.Name
+				}
+			}
+		}
+		return true
+	})
+	if method == "" {
+		return "", fmt.Errorf("wake sets: udp/client.Conn.CheckExpirations no longer walks midHandlerContainer with a callback (the tie to the source is broken)")
+	}
+	wm, err := c09FindMethod(root, fset, "pkg/sync/map.go", "Map", method)
+	if err != nil {
+		return "", err
+	}
+	cb := ""
+	if len(wm.Type.Params.List) > 0 && len(wm.Type.Params.List[0].Names) > 0 {
+		cb = wm.Type.Params.List[0].Names[0].Name
+	}
+	var loop *ast.RangeStmt
+	ast.Inspect(wm.Body, func(n ast.Node) bool {
+		if r, ok := n.(*ast.RangeStmt); ok && loop == nil {
+			loop = r
+		}
+		return true
+	})
+	if loop == nil || cb == "" {
+		return "", fmt.Errorf("wake sets: pkg/sync.Map.%s: no range loop with a callback found (the tie to the source is broken)", method)
+	}
+	// statements of the loop body in order: position of RUnlock, of the call of the callback, of RLock
+	unlockAt, callAt, lockAt := -1, -1, -1
+	for i, st := range loop.Body.List {
+		ast.Inspect(st, func(n ast.Node) bool {
+			c, ok := n.(*ast.CallExpr)
+			if !ok {
+				return true
+			}
+			switch name := c09Expr(c.Fun); {
+			case strings.HasSuffix(name, ".RUnlock") && unlockAt < 0:
+				unlockAt = i
+			case strings.HasSuffix(name, ".RLock") && callAt >= 0 && lockAt < 0:
+				lockAt = i
+			case name == cb && callAt < 0:
+				callAt = i
+			}
+			return true
+		})
+	}
+	if callAt < 0 {
+		return "", fmt.Errorf("wake sets: pkg/sync.Map.%s: the range loop does not call the callback (the tie to the source is broken)", method)
+	}
+	unlocks := unlockAt >= 0 && unlockAt < callAt && lockAt > callAt
+	fmt.Fprintf(&sb, "\n(* udp/client/conn.go CheckExpirations walks midHandlerContainer with pkg/sync.Map.%s; does the range loop of that\n   method release the read lock around the callback (RUnlock before it, RLock after it)? *)\n", method)
+	fmt.Fprintf(&sb, "Definition mid_walk_method : string := %q.\n", method)
+	fmt.Fprintf(&sb, "Definition mid_walk_unlocks : bool := %s.\n", coqBool(unlocks))
+
+	sh, err := c09FindMethod(root, fset, "udp/server/session.go", "Session", "shutdown")
+	if err != nil {
+		return "", err
+	}
+	plain := len(sh.Body.List) == 2
+	if plain {
+		d, ok := sh.Body.List[0].(*ast.DeferStmt)
+		plain = ok && c09Expr(d.Call) == "s.doneCancel()"
+	}
+	if plain {
+		r, ok := sh.Body.List[1].(*ast.RangeStmt)
+		plain = ok && c09Expr(r.X) == "s.popOnClose()" && r.Value != nil && len(r.Body.List) == 1
+		if plain {
+			e, ok := r.Body.List[0].(*ast.ExprStmt)
+			plain = ok && c09Expr(e.X) == c09Expr(r.Value)+"()"
+		}
+	}
+	sb.WriteString("\n(* udp/server/session.go: Session.shutdown is exactly `defer s.doneCancel(); for _, f := range s.popOnClose() { f() }` *)\n")
+	fmt.Fprintf(&sb, "Definition udp_shutdown_plain : bool := %s.\n", coqBool(plain))
+	return sb.String(), nil
 }
